@@ -143,7 +143,11 @@ class JSONPointer:
         ):
             return s
 
-        index = int(s)
+        try:
+            index = int(s)
+        except ValueError:
+            # More digits than `int()` is willing to convert.
+            raise JSONPointerIndexError("index out of range") from None
         if index < self.min_int_index or index > self.max_int_index:
             raise JSONPointerIndexError("index out of range")
         return index
